@@ -40,6 +40,18 @@ PATTERNS = [
 ]
 FORMATS = ["email", "ipv4", "ipv6", "date", "regex", "ip-address", "time", "idn-email", "unknown-format", "", "hostname"]
 ANNOTATIONS = ["title", "description", "default", "examples", "$comment", "definitions", "readOnly"]
+# keywords of later specifications (2019-09, 2020-12): unknown to every draft modelled here
+LATER = ["minContains", "maxContains", "unevaluatedItems", "unevaluatedProperties", "dependentRequired", "dependentSchemas",
+         "prefixItems", "$anchor", "$recursiveRef", "$recursiveAnchor", "$dynamicRef", "$dynamicAnchor", "$defs", "$vocabulary",
+         "contentSchema", "deprecated", "writeOnly"]
+# the keyword a later one modifies in its own specification (where a shortcut would consult it), and telling values
+LATER_PARTNER = {
+    "minContains": ("contains", [0, 0.0, False, 1, 2, 3]), "maxContains": ("contains", [0, 1, 2, False]),
+    "unevaluatedItems": ("items", [False, {"not": {}}, True]), "unevaluatedProperties": ("properties", [False, {"not": {}}, True]),
+    "dependentRequired": ("dependencies", [{"a": ["zz"]}, {"b": ["a", "zz"]}]), "dependentSchemas": ("dependencies", [{"a": False}, {"b": {"not": {}}}]),
+    "prefixItems": ("items", [[False], [{"not": {}}, False], []]), "$recursiveRef": ("$ref", ["#"]), "$dynamicRef": ("$ref", ["#", "#a"]),
+    "$defs": ("definitions", [{"a": False}]), "deprecated": ("type", [True]), "writeOnly": ("type", [True]),
+}
 FOREIGN = {
     "d3": ["allOf", "anyOf", "oneOf", "not", "const", "contains", "propertyNames", "if", "then", "else",
            "multipleOf", "required", "minProperties", "maxProperties", "exclusiveMinimum", "$id", "unevaluatedProperties", "prefixItems"],
@@ -118,6 +130,46 @@ class G:
         if k in (7, 8):
             return [self.value(depth - 1) for _ in range(r.randrange(0, 4))]
         return {self.r.choice(NAMES): self.value(depth - 1) for _ in range(r.randrange(0, 4))}
+
+    def retype(self, v):
+        """v with one scalar leaf replaced by a value of the same Python class family but another JSON
+        type or integrality (3.0 <-> 3.5, 1 <-> True <-> 1.0, 0 <-> False <-> 0.0): what a cache keyed
+        by class, hash or `==` confuses"""
+        r = self.r
+        v = copy.deepcopy(v)
+
+        def leafs(x, path, acc):
+            if isinstance(x, dict):
+                for k in x:
+                    leafs(x[k], path + [k], acc)
+            elif isinstance(x, list):
+                for n, y in enumerate(x):
+                    leafs(y, path + [n], acc)
+            elif isinstance(x, (bool, int, float)):
+                acc.append(path)
+            return acc
+
+        def alt(x):
+            if isinstance(x, bool):
+                return r.choice([int(x), float(x)])
+            if isinstance(x, float):
+                if x != x or x in (float("inf"), float("-inf")) or abs(x) > 1e15:
+                    return 0.5
+                return r.choice([x + 0.5, int(x) if x == int(x) else float(round(x)), bool(x) if x in (0.0, 1.0) else x + 0.5])
+            if abs(x) > 2 ** 52:
+                return x + 1
+            return r.choice([float(x), x + 0.5, bool(x) if x in (0, 1) else float(x)])
+        ps = leafs(v, [], [])
+        if not ps:
+            return r.choice([1.5, 1.0, True, 0, 0.0, False])
+        path = r.choice(ps)
+        if not path:
+            return alt(v)
+        cur = v
+        for k in path[:-1]:
+            cur = cur[k]
+        cur[path[-1]] = alt(cur[path[-1]])
+        return v
 
     def twist(self, v):
         """a value that differs from v in exactly one JSON-equality-relevant way (or not at all)"""
@@ -447,7 +499,7 @@ class G:
                 if isinstance(x, dict):
                     cands.append(self._instance_for(d, x, depth - 1))
         for ty in types:
-            cands.append({"array": [], "boolean": r.choice([True, False]), "integer": r.choice([0, 1, 7, 1.0, 2 ** 60]),
+            cands.append({"array": [], "boolean": r.choice([True, False]), "integer": r.choice([0, 1, 7, 1.0, 2 ** 60, 1.5, 2.0, -0.5, 3.0, 2.5, True]),
                           "null": None, "number": self.number(), "object": {}, "string": self.string(),
                           "any": self.value(1)}.get(ty, None))
         if not cands or r.random() < 0.15:
@@ -558,7 +610,10 @@ class RefG(G):
     def frag_for(self, tokens):
         r = self.r
         p = "".join("/" + ptr_escape(t) for t in tokens)
-        mode = r.randrange(3)
+        mode = r.randrange(4)
+        if mode == 3:
+            # everything percent-encoded, the separators too (RFC 3986 decoding comes first, then RFC 6901)
+            return _quote(p, safe="") if r.random() < 0.6 else _quote(p, safe="~").replace("%2F", r.choice(["%2f", "%2F"]))
         if mode == 0:
             return _quote(p, safe="/~!$&'()*+,;=:@")
         if mode == 1:
@@ -636,6 +691,10 @@ class RefG(G):
             if not isinstance(root.get("definitions"), dict):
                 root["definitions"] = {}
             root["definitions"].update(defs)
+        # the OTHER drafts' spelling of the id keyword is not a keyword here: it must not move the base
+        other_idk = "$id" if d in ("d3", "d4") else "id"
+        if r.random() < 0.15 and other_idk not in root:
+            root[other_idk] = r.choice(["http://decoy.example/base/", "http://ex.org/decoy/x.json", "decoy/"])
         # sibling keywords next to $ref must be ignored
         if r.random() < 0.3:
             for c, k, _ in all_slots(root, d):
